@@ -164,3 +164,74 @@ def replay_fsort(ctx, res):
                         "script": script, "families": [fam]}
         except Exception as ex:
             o.replay = {"reproduced": False, "outcome": "replayer error: %r" % (ex,)}
+
+
+FSEARCH_SCRIPT = r'''
+import sys, importlib, itertools
+fam = %(fam)r
+M = importlib.import_module("BTrees._%%sBTree" %% fam)
+isset_only = False
+def mk(kind, keys):
+    cls = getattr(M, fam + kind)
+    class T(cls):
+        max_leaf_size, max_internal_size = 2, 2
+    t = T() if kind in ("BTree", "TreeSet") else cls()
+    for k in keys:
+        (t.add(k) if kind in ("Set", "TreeSet") else t.__setitem__(k, %(val)s))
+    return t
+bad = []
+universe = list(range(0, 15))
+for n in range(0, 8):
+    for keys in ([2 * i + 1 for i in range(n)], [2 * i + 1 for i in reversed(range(n))]):
+        for kind in ("Bucket", "Set", "BTree", "TreeSet"):
+            t = mk(kind, keys)
+            ks = sorted(keys)
+            for probe in universe:
+                want = probe in ks
+                try:
+                    got = probe in t
+                except Exception as e:
+                    got = "raised %%s" %% type(e).__name__
+                if got != want:
+                    bad.append("%%s%%s(%%r): %%r in t -> %%r, the key set says %%r" %% (fam, kind, ks, probe, got, want))
+                try:
+                    got = list(t.keys(probe))
+                except Exception as e:
+                    got = "raised %%s" %% type(e).__name__
+                if got != [k for k in ks if k >= probe]:
+                    bad.append("%%s%%s(%%r).keys(min=%%r) -> %%r" %% (fam, kind, ks, probe, got))
+            if list(t.keys()) != ks:
+                bad.append("%%s%%s built from %%r iterates as %%r" %% (fam, kind, keys, list(t.keys())))
+print("\n".join(bad[:12]) or "no violation on vectors of up to 7 keys")
+sys.exit(1 if bad else 0)
+'''
+
+
+def replay_fsearch(ctx, res):
+    """F-SEARCH gives no input of its own (the counter-model is a loop-head state): the replay offers every
+    probe key to leaves and trees (node sizes 2) of up to 7 keys of that family and compares with the key set."""
+    import re
+    from lib import build
+    done = {}
+    for o in res.obligations:
+        if o.status not in ("refuted", "unknown") or not o.name.startswith("F-SEARCH"):
+            continue
+        fm = re.match(r"\[(\w\w)\]", o.detail or "")
+        if not fm:
+            continue
+        fam = fm.group(1)
+        if fam not in done:
+            val = {"O": "'v'", "F": "1.5"}.get(fam[1], "7")
+            script = FSEARCH_SCRIPT % {"fam": fam, "val": val}
+            try:
+                bdir = build.build((fam,))
+                e = dict(os.environ, PYTHONPATH=bdir + os.pathsep + VERIF)
+                p = subprocess.run([PY, "-c", script], env=e, capture_output=True, text=True, timeout=300)
+                crashed = p.returncode < 0
+                done[fam] = {"reproduced": p.returncode == 1 or crashed,
+                             "outcome": ("the interpreter was killed by signal %d while running the probe script: "
+                                         % -p.returncode if crashed else "") + (p.stdout + p.stderr)[-1500:],
+                             "script": script, "families": [fam]}
+            except Exception as ex:
+                done[fam] = {"reproduced": False, "outcome": "replayer error: %r" % (ex,)}
+        o.replay = done[fam]
